@@ -10,4 +10,4 @@ pub mod refsem;
 pub mod spec;
 
 pub use harness::{guard, my_err, my_err_calls, my_err_g, Ctx, MyErr, MyErrG, Nd, Obs, Program, Tier};
-pub fn id<T>(t: T) -> T { t }
+pub const fn id<T>(t: T) -> T { t }
